@@ -45,18 +45,30 @@ def distance_cases(draw, tier):
     a = draw(point(k))
     same = draw(st.integers(0, 9)) == 0
     b = list(a) if same else draw(point(k))
+    geo = draw(st.sampled_from(['plain', 'plain', 'plain', 'offset', 'short']))
+    if geo == 'offset' and not same:      # large common offset, small extent (time stamps, counters)
+        ox, oy = draw(st.sampled_from([(1e6, 0.0), (1.7e9, 3.2e9), (1e6, 1e6), (1000.0, 1000.0)]))
+        a = [ox + draw(st.integers(0, 50)), oy + draw(st.integers(0, 50)) / 4.0]
+        b = [a[0] + draw(st.integers(1, 40)), a[1] + draw(st.integers(-40, 40)) / 4.0]
+    elif geo == 'short' and not same:     # a genuine segment that is short relative to its coordinates
+        d = draw(st.sampled_from([1e-3, 1e-5, 1e-6]))
+        a = [1000.0 + draw(st.integers(0, 9)), 1000.0 + draw(st.integers(0, 9))]
+        b = [a[0] + 8 * d, a[1] + draw(st.sampled_from([0.0, 4.0, -2.0])) * d]
     n = draw(st.integers(1, 12 if tier == 'quick' else 40))
     pts = []
     for _ in range(n):
         mode = draw(st.sampled_from(['free', 'free', 'on', 'beyond', 'end']))
-        if mode == 'free' or same:
+        if mode == 'free' and geo != 'plain' and not same:
+            ext = max(abs(b[0] - a[0]), abs(b[1] - a[1]))
+            pts.append([a[0] + ext * draw(st.integers(-8, 16)) / 4.0, a[1] + ext * draw(st.integers(-8, 16)) / 4.0])
+        elif mode == 'free' or same:
             pts.append(draw(point(k)))
         elif mode == 'end':
             pts.append(list(draw(st.sampled_from([a, b]))))
         else:
             t = draw(st.sampled_from([0.25, 0.5, 0.75])) if mode == 'on' else draw(st.sampled_from([-1.0, -0.5, 1.5, 2.0, 3.0]))
             pts.append([a[0] + t * (b[0] - a[0]), a[1] + t * (b[1] - a[1])])
-    return {'kind': 'distance', 'k': k, 'a': a, 'b': b, 'pts': pts}
+    return {'kind': 'distance', 'k': k, 'geo': geo, 'a': a, 'b': b, 'pts': pts}
 
 
 def dist_tol(ref, p, a, b, scale):
@@ -73,7 +85,7 @@ def oracle_distance(case, rec):
     p = np.array(case['pts'], dtype=float).reshape(-1, 2)
     scale = max(1e-300, float(np.max(np.abs(np.vstack([p, a, b])))))
     fa, fb = X.pt(a), X.pt(b)
-    rec.tag('dist:k=%d' % case['k'], 'dist:a==b' if fa == fb else 'dist:a!=b')
+    rec.tag('dist:k=%d' % case['k'], 'dist:a==b' if fa == fb else 'dist:a!=b', 'dist:geo=' + case.get('geo', 'plain'))
     out = rec.call(8, L.lf.shortest_distance_points, p, a, b, _site='lf.shortest_distance_points')
     clamped = unclamped = False
     if out is not FAILED:
@@ -148,7 +160,7 @@ def oracle_index(case, rec):
 # ------------------------------------------------------------------ rectangles
 @st.composite
 def rect_cases(draw, tier):
-    k = draw(st.sampled_from([0, 0, 0, -6, -3, 3, 9]))
+    k = draw(st.sampled_from([0, 0, 0, -6, -3, 3, 9, -9, -8]))
     c = st.one_of(st.integers(0, 20).map(float), coords(0))
     f = 10.0 ** k
 
@@ -245,7 +257,7 @@ def menger_cases(draw, tier):
         pts = [[x0 * f, ys[0] * f / 8.0], [(x0 + s1) * f, ys[1] * f / 8.0], [(x0 + s1 + s2) * f, ys[2] * f / 8.0]]
     else:
         pts = [draw(point(k)) for _ in range(3)]
-    return {'kind': 'menger', 'mode': mode, 'k': k, 'pts': pts}
+    return {'kind': 'menger', 'mode': mode, 'k': k, 'pts': pts, 'int64': draw(st.booleans())}
 
 
 def menger_ref(f, g, h):
@@ -260,6 +272,12 @@ def oracle_menger(case, rec):
     pts = [np.array(p, dtype=float) for p in case['pts']]
     fp = [X.pt(p) for p in pts]
     rec.tag('menger:' + case['mode'])
+    call_pts = pts
+    flat = [v for p in pts for v in p]
+    if case.get('int64') and all(float(v).is_integer() for v in flat) and max(abs(v) for v in flat) < 2 ** 30:
+        arr = np.array(case['pts'], dtype=np.int64)      # rows of an integer-typed curve
+        call_pts = [arr[0], arr[1], arr[2]]
+        rec.tag('menger:int64')
     if len(set(fp)) < 3:
         rec.tag('menger:coincident-skipped')   # circumradius undefined, outside the definition
         return
@@ -270,7 +288,7 @@ def oracle_menger(case, rec):
     vals = []
     for perm in itertools.permutations(range(3)):
         a, b, cc = (pts[i] for i in perm)
-        v = rec.call(8, L.menger.menger_curvature, a, b, cc, _site='menger.menger_curvature')
+        v = rec.call(8, L.menger.menger_curvature, *(call_pts[i] for i in perm), _site='menger.menger_curvature')
         if v is FAILED:
             return
         v = float(v)
